@@ -2,7 +2,7 @@
    fails to compile if Props/C11.v is weakened, renamed or given other hypotheses. *)
 From Coq Require Import SpecFloat.
 Require Import Base Value Float PrintOptions ParseOptions Utf8 Reader Scan Num NumberOps Parser.
-Require Import RelFramework PositionProofs SpanProofs CrossProofs SourcesAgree QuoteSpan.
+Require Import RelFramework PositionProofs SpanProofs CrossProofs SourcesAgree QuoteSpan ValidTextProofs.
 Require Import Lexpr.Props.C11.
 
 Check (C11_spans_in_bounds_partial :
@@ -77,6 +77,10 @@ Check (C11_same_across_str_and_slice :
   forall ro alpha fast std_parse (inp : list event),
   (exists l c, datum_from_trait ro alpha fast std_parse SrcSlice inp = PErr (XErr (ESyntax InvalidUnicodeCodePoint l c))) \/
   datum_from_trait ro alpha fast std_parse SrcStr inp = datum_from_trait ro alpha fast std_parse SrcSlice inp).
+
+Check (C11_same_across_str_and_slice_on_text :
+  forall W, utf8_valid W = true -> forall ro alpha fast std_parse,
+  datum_from_trait ro alpha fast std_parse SrcStr (bytes_events W) = datum_from_trait ro alpha fast std_parse SrcSlice (bytes_events W)).
 
 Check (C11_quote_head :
   forall ro alpha fast std_parse f s b r1 dd s',
